@@ -12,7 +12,7 @@ PROPERTY = {
     'technique': 'CrossHair symbolic execution of Config.__init__ (deepcopy + evaluate), Bunch access and re-evaluation of cfg.ayns.source; the mutation applied to the evaluated config and the merge flags of the source documents are symbolic; a recursive type walk is asserted on every path',
     'assumptions': ['recording targets return fresh mutable objects per call', 'metadata codec stub for flag sites (native replays use the real codec)'],
     'bounds': {'tree': 'mappings/lists/scalars of every scalar type, null, empty containers, underscore and int keys, !call, !bind, one-line and multi-line !eval, f-string, !xref, !path, !import; 2 merged stages with a symbolic delete flag / priority',
-               'mutations': '10 in-place mutations of the evaluated config (set/append/delete/clear at several depths, incl. results of dynamic nodes)', 'evaluations': '1..3 re-evaluations of the retained source'},
+               'mutations': '12 in-place mutations (incl. the target of a forward reference) of the evaluated config (set/append/delete/clear at several depths, incl. results of dynamic nodes)', 'evaluations': '1..3 re-evaluations of the retained source, with a fresh context per evaluation or ONE caller-supplied EvalContext reused for all of them'},
     'outside': ['objects returned by user callables that are shared by the callable itself (not created per call)'],
     'per_split_timeout': {'quick': 600, 'thorough': 1800},
     'wall_budget': {'quick': 1500, 'thorough': 7000},
@@ -39,7 +39,7 @@ cnt: !eval "len(later)"
 later: {inner: [1], k: 3, m: {z: 0}}
 '''
 
-MUTATIONS = ['a', 'b.c', 'b.d.append', 'b.d[1].e', 'b.del', 'call.append', 'ml.append', 'xr.append', 'emp.new', 'b._u.v']
+MUTATIONS = ['a', 'b.c', 'b.d.append', 'b.d[1].e', 'b.del', 'call.append', 'ml.append', 'xr.append', 'emp.new', 'b._u.v', 'later.inner.append', 'later.m.new']
 
 
 def walk(obj, path=''):
@@ -116,6 +116,10 @@ def _mutate(cfg, m):
         cfg['emp']['k'] = 1
     elif m == 'b._u.v':
         cfg['b']['_u']['v'] = False
+    elif m == 'later.inner.append':
+        cfg['later']['inner'].append(4)      # the target of a FORWARD reference
+    elif m == 'later.m.new':
+        cfg['later']['m']['new'] = 1
 
 
 def c11_plain(split, mut, reps, dp, d, pp, p):
@@ -130,8 +134,9 @@ def c11_plain(split, mut, reps, dp, d, pp, p):
     doc2 = 'b: %s {c: 3.5, d: [9], n2: {z: [0]}}\na: !weak 5\n' % site('s2', flags)
     docs = [DOC1, doc2]
     note(docs=docs, mutation=MUTATIONS[mut])
+    ctx = EvalContext() if split.get('shared_ctx') else None      # ONE context object for the build and every re-evaluation
     try:
-        cfg = Config.build(*docs, raw_yaml=True, filename=['/proj/a.yaml', '/proj/b.yaml'])
+        cfg = Config.build(*docs, raw_yaml=True, filename=['/proj/a.yaml', '/proj/b.yaml'], eval_ctx=ctx)
     except Exception as e:
         reraise_internal(e)
         note(error=repr(e)[:300], cause=repr(getattr(e, '__cause__', None))[:200])
@@ -152,13 +157,16 @@ def c11_plain(split, mut, reps, dp, d, pp, p):
     src_before = snapshot(src.ayns.native_value) if hasattr(src, 'ayns') else None
     mutate(cfg, MUTATIONS[mut])
     for i in range(reps):
-        again = Config(cfg.ayns.source)
+        again = Config(cfg.ayns.source, eval_ctx=ctx)
         r = walk(again)
         if r:
             note(leak_again=r)
             return False
         if snapshot(again) != snap0:
             note(reeval_differs=repr(snapshot(again))[:500], first=repr(snap0)[:500], round=i)
+            return False
+        if split.get('shared_ctx') and (again['fwd'] is cfg['fwd'] or again['xr'] is cfg['xr'] or again['later'] is cfg['later']):
+            note(shared_objects='a re-evaluation returned objects of the earlier result', round=i)
             return False
         if i == 0:
             mutate(again, MUTATIONS[(mut + 3) % len(MUTATIONS)])
@@ -173,6 +181,10 @@ def _splits(tier):
             out.append({'_pre': 'mut == %d and reps <= 1' % m})
         else:
             out.append({'_pre': 'mut == %d' % m})
+    # the caller passes ONE EvalContext to the build and to every re-evaluation (quick: mutations of reference targets)
+    for m in range(len(MUTATIONS)):
+        if tier != 'quick' or MUTATIONS[m] in ('later.inner.append', 'xr.append', 'b.d.append', 'call.append'):
+            out.append({'shared_ctx': True, '_pre': 'mut == %d' % m + (' and reps >= 1' if tier == 'quick' else '')})
     return out
 
 
